@@ -61,7 +61,8 @@ def gen_plan(rng, tier, run):
         else:
             data = pelgen.build(rec)
             j = common.gen_junk(rng, data, pelgen.section_offsets(rec), fields=pelgen.field_offsets(rec))
-        junk.append({"name": rng.choice([src["name"] + ".part", "0" + src["name"], src["name"] + "~", "zz%d" % i, "A%d.pel" % i,
+        junk.append({"name": rng.choice(([src["name"].rsplit(".", 1)[0]] * 3 if "." in src["name"][1:] else []) +     # a dot-prefix of a healthy PEL's name
+                                        [src["name"] + ".part", "0" + src["name"], src["name"] + "~", "zz%d" % i, "A%d.pel" % i,
                                          "disk_100%%_full_%d.pel" % i, "pel%%20copy%d" % i, "a{b}%d.pel" % i, "x y %d" % i,
                                          "na\u00efve%d.pel" % i, "5a%d" % i, "1x%d" % i, "%da" % (10 + i), "%%s%%d%d" % i, "quote'\"%d" % i]),
                      "recipe": rec, "junk": j})
